@@ -8,7 +8,9 @@ from . import execlib
 
 def gen_join_group(rng, tier, run_at_boundary=False):
     """one (L, R, equi keys) instance and every physical join plan over it"""
-    lt, rt = ["i32", "i32"], [rng.choice(["i32", "i32", "i32", "i64"]), "i32"]
+    # keys of different integer widths on the two sides (executor::build casts such a pair to the wider type)
+    lt = [rng.choice(["i32", "i32", "i32", "i16", "i64"]), rng.choice(["i32", "i32", "i16"])]
+    rt = [rng.choice(["i32", "i32", "i32", "i16", "i64"]), rng.choice(["i32", "i32", "i64"])]
     if run_at_boundary:
         rt = ["i32", "i32"]
     big = rng.random() < (0.02 if tier == "quick" else 0.05)   # > 1024 output rows: crosses the output chunk size
@@ -52,7 +54,7 @@ def gen_join_group(rng, tier, run_at_boundary=False):
                                                ["list"] + [sx_json(k, [0, 1]) for k in rk], sa, sb],
                           f"PHashSemi2 {cbool(t == 'anti')} {clist(sx_term(k, 0) for k in lk)} {clist(sx_term(('col', 0, k[2]), 0) for k in rk)} {sx_term(resid, 2)}"))
     return {"kind": "join", "tables": tables, "L": L, "R": R, "lt": lt, "rt": rt, "plans": plans,
-            "mixed_width": lt[0] != rt[0] and nkeys >= 1}
+            "mixed_width": lt[0] != rt[0] or (nkeys > 1 and lt[1] != rt[1])}
 
 
 AGGS = [("sum", "ASum"), ("count", "ACount"), ("min", "AMin"), ("max", "AMax"), ("count-distinct", "ACountDistinct"),
@@ -153,7 +155,7 @@ def run(R, only=None):
                         R.property_fails(klass, f"C11 {t} join: the {'/'.join(failed)} implementation fails where others answer",
                                          {"kind": "plan-pair", "tables": g["tables"], "join": t})
                     if len(set(map(json.dumps, ok_vals.values()))) > 1:
-                        klass = "KF_C11_int_width_keys" if g["mixed_width"] else None
+                        klass = None
                         R.property_fails(klass, f"C11 {t} join{' with residual' if variant else ''}: implementations disagree: " +
                                          "; ".join(f"{nm}={len(v)} rows" for nm, v in ok_vals.items()),
                                          {"kind": "plan-pair", "tables": g["tables"], "join": t, "results": ok_vals})
